@@ -1869,6 +1869,13 @@ class Generator:
         if c.want_pull and r < 0.5:
             self.emit({"k": "pull", "c": cid})
             return
+        if len(c.unconfirmed) > 14 and not self.draining and rng.random() < 0.8:
+            # a long unconfirmed chain: stop typing, try to get it through first
+            dl = self.push_deadline.get(cid)
+            if dl is None or self.t >= dl:
+                self.push_deadline[cid] = self.t + cfg.get("retry_ms", 150)
+                self.emit({"k": "push", "c": cid})
+            return
         if c.unconfirmed:
             dl = self.push_deadline.get(cid)
             if dl is None or self.t >= dl:
